@@ -33,6 +33,7 @@ structure ParseIn where
   typ : String          -- headers.Type()
   hasJwk : Bool         -- headers.JWK() != nil
   jwkPrivate : Bool     -- jwkIsPrivateKey(headers.JWK())
+  algFitsKey : Bool := true  -- jwx.AlgorithmFitsKey(headers.Algorithm(), headers.JWK()) (curve / Ed25519 key length)
   jwtOk : Bool          -- jwt.ParseString(s, WithKey(alg, jwk)) err == nil
   iatZero : Bool        -- token.IssuedAt().IsZero()
   htu : Option J        -- token.Get("htu")
@@ -60,7 +61,8 @@ def claimCheck (c : Cfg) (name : String) (v : Option J) : Res Unit :=
       | _ => .err ("invalid " ++ name)
     else .ok ()
 
-def parse (c : Cfg) (i : ParseIn) : Res Token :=
+/-- the checks of Parse on the JWS and its protected header, up to and including signature verification -/
+def parseHeader (i : ParseIn) : Res Unit :=
   if !i.jwsOk then .err "jws" else
   if i.nSigs != 1 then .err "nsig" else
   -- message.Signatures()[0]
@@ -69,7 +71,11 @@ def parse (c : Cfg) (i : ParseIn) : Res Token :=
   if i.typ != "dpop+jwt" then .err "typ" else
   if !i.hasJwk then .err "nojwk" else
   if i.jwkPrivate then .err "privjwk" else
-  if !i.jwtOk then .err "jwt" else
+  if !i.algFitsKey then .err "algfit" else
+  if !i.jwtOk then .err "jwt" else .ok ()
+
+/-- the checks of Parse on the claims -/
+def parseClaims (c : Cfg) (i : ParseIn) : Res Token :=
   if i.iatZero then .err "iat" else
   match claimCheck c "htu" i.htu with
   | .err e => .err e
@@ -82,6 +88,12 @@ def parse (c : Cfg) (i : ParseIn) : Res Token :=
   if i.jtiLen == 0 then .err "jti" else
   if i.jtiLen > maxJtiLength then .err "jtilong" else
   .ok { htu := i.htu, htm := i.htm }
+
+def parse (c : Cfg) (i : ParseIn) : Res Token :=
+  match parseHeader i with
+  | .err e => .err e
+  | .panic s => .panic s
+  | .ok () => parseClaims c i
 
 /-- `if v, ok := t.Token.Get(key); ok { return v.(string) }; return ""` -/
 def claimString (checked : Bool) (site : String) (v : Option J) : Res String :=
